@@ -38,17 +38,27 @@ func (cache *dirCache) Store(target *core.BuildTarget, key []byte, files []strin
 	tmpDir := cache.getFullPath(target, key, "", "=")
 	cache.markDir(cacheDir, 0)
 	verifhook.Point("dircache.Store.marked")
-	if err := fs.RemoveAll(cacheDir); err != nil {
-		log.Warning("Failed to remove existing cache directory %s: %s", cacheDir, err)
+	cache.storeFiles(target, key, "", cacheDir, tmpDir, files, true)
+	verifhook.Point("dircache.Store.beforeRename")
+	// Move any existing entry aside rather than deleting it in place: another process may be retrieving it
+	// right now, and must see either the whole old entry or the whole new one, never a half-deleted tree.
+	oldDir := cache.getFullPath(target, key, "", "~")
+	if err := fs.RemoveAll(oldDir); err != nil {
+		log.Warning("Failed to remove old cache directory %s: %s", oldDir, err)
+		return
+	}
+	if err := os.Rename(cacheDir, oldDir); err != nil && !os.IsNotExist(err) {
+		log.Warning("Failed to move existing cache directory %s: %s", cacheDir, err)
 		return
 	}
 	verifhook.Point("dircache.Store.removedOld")
-	cache.storeFiles(target, key, "", cacheDir, tmpDir, files, true)
-	verifhook.Point("dircache.Store.beforeRename")
 	if err := os.Rename(tmpDir, cacheDir); err != nil && !os.IsNotExist(err) {
 		log.Warning("Failed to create cache directory %s: %s", cacheDir, err)
 	}
 	verifhook.Point("dircache.Store.renamed")
+	if err := fs.RemoveAll(oldDir); err != nil {
+		log.Warning("Failed to remove old cache directory %s: %s", oldDir, err)
+	}
 }
 
 // storeFiles stores the given files in the cache, either compressed or not.
